@@ -94,6 +94,16 @@ var subC08 = core.NewSub("C08/setters", func(w *core.Worker, c bytesCase) *core.
 		if err2 != nil || r2.Equal(&s) != 1 {
 			return core.Failf("SetCanonicalBytes(Bytes(s)) failed or unequal for %x", out)
 		}
+		// "always": also after a caller wrote into a slice Bytes() returned earlier
+		for i := range out[:cap(out)] {
+			out[:cap(out)][i] = 0xff
+		}
+		if again := s.Bytes(); !bytes.Equal(again, exp[:]) {
+			return core.Failf("Bytes() returns %x (want %x) after the slice returned by an earlier Bytes() call was overwritten", again, exp[:])
+		}
+		if z := new(edwards25519.Scalar).Subtract(&s, &s).Bytes(); !bytes.Equal(z, make([]byte, 32)) {
+			return core.Failf("Bytes() of s-s = %x after an earlier result was overwritten", z)
+		}
 		return nil
 	}
 	w.Distinct("accept", []byte{0})
@@ -151,6 +161,50 @@ func lengthCases(right int) [][]byte {
 	_ = right
 	return out
 }
+
+// A rejected call must not influence the next accepted one (scratch buffers
+// reused across calls): every setter is called on a rejected input and then
+// on a valid one, in one case.
+type seqBytesCase struct {
+	Fn   string `json:"fn"`
+	Bad  Hex    `json:"rejected_first"`
+	Good Hex    `json:"then"`
+}
+
+var subC08Seq = core.NewSub("C08/rejected-then-valid", func(w *core.Worker, c seqBytesCase) *core.Fail {
+	var s edwards25519.Scalar
+	call := func(in []byte) (*edwards25519.Scalar, error) {
+		switch c.Fn {
+		case "SetCanonicalBytes":
+			return s.SetCanonicalBytes(in)
+		case "SetUniformBytes":
+			return s.SetUniformBytes(in)
+		default:
+			return s.SetBytesWithClamping(in)
+		}
+	}
+	if _, err := call(append([]byte{}, c.Bad...)); err == nil {
+		return nil // the first input happens to be valid for this setter: nothing to test
+	}
+	if _, err := call(append([]byte{}, c.Good...)); err != nil {
+		return core.Failf("%s rejected a valid input after a rejected call: %v", c.Fn, err)
+	}
+	var want *big.Int
+	switch c.Fn {
+	case "SetCanonicalBytes":
+		want = ref.FromLE(c.Good)
+	case "SetUniformBytes":
+		want = ref.SRed(ref.FromLE(c.Good))
+	default:
+		want = ref.SRed(ref.Clamp(c.Good))
+	}
+	exp := ref.LE32(want)
+	if !bytes.Equal(s.Bytes(), exp[:]) {
+		return core.Failf("%s(%x) after a rejected call on %d bytes gives %x want %x", c.Fn, []byte(c.Good), len(c.Bad), s.Bytes(), exp[:])
+	}
+	w.Distinct("nontrivial:values", s.Bytes())
+	return nil
+})
 
 func init() { register("C08", "exploration", runC08) }
 
@@ -233,6 +287,21 @@ func runC08(ctx *core.Ctx) {
 	}
 	add("SetBytesWithClamping", lengthCases(32))
 	subC08.RunList(ctx, cases)
+	var sq []seqBytesCase
+	g := le(alpha.GenericScalar)
+	for _, fn := range []string{"SetCanonicalBytes", "SetUniformBytes", "SetBytesWithClamping"} {
+		good := g
+		if fn == "SetUniformBytes" {
+			good = cat(g, g)
+		}
+		for _, n := range []int{0, 1, 31, 33, 63, 64, 65, 96, 97, 128, 130} {
+			for _, fill := range []byte{0xff, 0xd7, 0x00} {
+				sq = append(sq, seqBytesCase{fn, Hex(bytes.Repeat([]byte{fill}, n)), Hex(good)})
+			}
+		}
+		sq = append(sq, seqBytesCase{fn, Hex(bytes.Repeat([]byte{0xff}, 32)), Hex(good)})
+	}
+	subC08Seq.RunList(ctx, sq)
 	if ctx.DistinctCount("accept") != 2 {
 		ctx.Vacuous("C08: vacuous accept/reject coverage")
 	}
